@@ -72,14 +72,14 @@ theorem exec_refines_draw_models (P : Prims σ α) (g : σ) (v : List Int) (w : 
       = (.pickW (pickOneW v w replace (P.uReal (Scalar.ofInt 1) g).1), (P.uReal (Scalar.ofInt 1) g).2) ∧
     (∀ k, exec P (.getSampleW v w k true) g
       = (.ints (getSampleW v w k true (drawUnits P k g).1), (drawUnits P k g).2)) ∧
-    (∀ n probs, exec P (.randMultinomial n probs) g
+    (∀ n probs, multinomialRaises probs n = false → exec P (.randMultinomial n probs) g
       = (.nats (randMultinomial probs n (drawUnits P n g).1), (drawUnits P n g).2)) ∧
     (∀ a b, exec P (.randGamma2 a b) g = (.scalar (P.gamma a (Scalar.ofInt 1 / b) g).1, (P.gamma a (Scalar.ofInt 1 / b) g).2)) := by
   refine ⟨?_, ?_, ?_, ?_, ?_⟩
   · simp [exec, hv]
   · simp [exec, hv]
   · intro k; simp [exec, hv]
-  · intro n probs; simp [exec]
+  · intro n probs hok; simp [exec, hok]
   · intro a b; simp [exec]
 
 omit [Scalar α] in
